@@ -133,7 +133,7 @@ func isStmtChild(ev *Event) bool { return ev.KV["childtype"] == "ast.Stmt" }
 
 func init() {
 	register("C04", &Checker{
-		Run: checkC04,
+		Run: func(p *Prog, l *Ledger) { checkC04(p, l); checkC04Shared(p, l) },
 		Explain: "Decided on the event graph of every clause of eval, of Function.Call and of Interpret (finite abstract exploration: every child evaluation forks over the signals {None, Break, Continue, Return} a statement child can return and over 'raised the error flag or not'): " +
 			"S1 a non-None signal that a clause does not handle (only loops handle Break/Continue, only Function.Call handles Return, only Interpret reports all three) is returned unchanged before any further evaluation, invocation, output, store or loop iteration; " +
 			"S2 the Return clause carries the value of eval(e.Value) (nil when absent) and Function.Call returns the Value of the first Return signal and evaluates nothing afterwards, nil at the end of the body; " +
@@ -521,7 +521,12 @@ func checkCallProtocol(cs *clauseSet, l *Ledger) {
 			case "invoke":
 				return "!invocation without an argument loop"
 			case "return":
-				return ""
+				// leaving before the invocation is an error exit (reported here or by the callee expression) or the
+				// propagation of the callee expression's signal — never a silent success
+				if ev.KV["raised"] == "T" || ev.KV["r1"] == parts[1]+".sig" {
+					return ""
+				}
+				return "!the call clause returns " + ev.KV["r0"] + " without invoking anything and without a runtime error having been reported (a callee that is not a function must be an error, whatever its value)"
 			}
 			return "!unexpected " + ev.String() + " between callee evaluation and argument evaluation"
 		case "arg": // expecting eval of this iteration's argument
@@ -540,7 +545,10 @@ func checkCallProtocol(cs *clauseSet, l *Ledger) {
 			case "flagtest":
 				return s
 			case "return":
-				return ""
+				if ev.KV["raised"] == "T" || ev.KV["r1"] == parts[3]+".sig" {
+					return ""
+				}
+				return "!the call clause gives up after evaluating an argument without an error having been reported"
 			case "append":
 				if len(ev.Args) != 2 || ev.Args[1] != parts[3]+".val" {
 					return "!the evaluated argument is not what is appended: " + ev.String()
@@ -701,6 +709,9 @@ func checkClosureWiring(cs *clauseSet, l *Ledger, rule string) {
 			}
 			if e.KV["repl"] != "false" {
 				bad = "body statement evaluated with isRepl=" + e.KV["repl"]
+			}
+			if !strings.HasPrefix(e.KV["child"], "f.Declaration.Body") {
+				bad = "the call evaluates " + e.KV["child"] + " rather than the statements of the declaration's body (a wrapper node puts a scope between the activation — parameters, own name — and the body's own declarations)"
 			}
 		}
 		for _, e := range fc.G.Events("define") {
